@@ -15,7 +15,7 @@
 //! children running `exec` — the ASan build (`LM_FP_ASAN_BIN`) and this debug build —
 //! restarts a child that died and attributes the death to the case whose `BEGIN`
 //! was the last one printed; it prints
-//!     <input line> => asan=<CLEAN|PANIC|ASAN(kind)|CRASH(sig)|NOASAN> dbg=<CLEAN|PANIC|CRASH(sig)> :: <records>
+//!     <input line> => asan=<CLEAN|PANIC|ASAN(kind)|CRASH(sig)|NOASAN> [rel=<same, release-mode sanitizer build>] dbg=<CLEAN|PANIC|CRASH(sig)> :: <records>
 #![allow(unexpected_cfgs)]
 use std::io::{BufRead, BufReader, Write};
 use std::ops::Range;
@@ -89,6 +89,107 @@ impl Drop for Poisoned {
             unsafe { __asan_unpoison_memory_region(a as *const u8, n) };
         }
     }
+}
+
+
+// ------------------------------------------------ guard-page allocator (plain debug build)
+//
+// The non-temporal stores of the kernels (`_mm256_stream_*`, `_mm_stream_ps`) are inline assembly in
+// current std::arch and therefore NOT instrumented by AddressSanitizer: a kernel that streams past its
+// destination matrix is invisible to the sanitizer children.  In the plain build every allocation with
+// alignment >= 32 (that is: every DenseMatrix — sequence, scoring and score matrices) is therefore
+// placed by this allocator so that it ENDS at a page boundary followed by an inaccessible page (and is
+// preceded by one): any instruction that touches a byte past the allocation faults (SIGSEGV), which the
+// orchestrator reports for the op that was running.
+#[cfg(not(lm_asan))]
+mod guard_alloc {
+    use std::alloc::{GlobalAlloc, Layout, System};
+    const PAGE: usize = 4096;
+    extern "C" {
+        fn mmap(addr: *mut u8, len: usize, prot: i32, flags: i32, fd: i32, off: i64) -> *mut u8;
+        fn munmap(addr: *mut u8, len: usize) -> i32;
+        fn mprotect(addr: *mut u8, len: usize, prot: i32) -> i32;
+    }
+    const PROT_NONE: i32 = 0;
+    const PROT_RW: i32 = 3;
+    const MAP_PRIVATE_ANON: i32 = 0x22;
+    pub struct GuardAlloc;
+    fn guarded(l: &Layout) -> bool {
+        l.align() >= 32 && l.align() <= PAGE && l.size() > 0
+    }
+    fn shape(l: &Layout) -> (usize, usize) {
+        let size = (l.size() + l.align() - 1) / l.align() * l.align();
+        (size, (size + PAGE - 1) / PAGE)
+    }
+    unsafe impl GlobalAlloc for GuardAlloc {
+        unsafe fn alloc(&self, l: Layout) -> *mut u8 {
+            if !guarded(&l) {
+                return System.alloc(l);
+            }
+            let (size, pages) = shape(&l);
+            let len = (pages + 2) * PAGE;
+            let base = mmap(std::ptr::null_mut(), len, PROT_NONE, MAP_PRIVATE_ANON, -1, 0);
+            if base as isize == -1 || base.is_null() {
+                return std::ptr::null_mut();
+            }
+            if mprotect(base.add(PAGE), pages * PAGE, PROT_RW) != 0 {
+                munmap(base, len);
+                return std::ptr::null_mut();
+            }
+            base.add(PAGE + pages * PAGE - size)
+        }
+        unsafe fn dealloc(&self, p: *mut u8, l: Layout) {
+            if !guarded(&l) {
+                return System.dealloc(p, l);
+            }
+            let (size, pages) = shape(&l);
+            let base = p.add(size).sub(pages * PAGE + PAGE);
+            munmap(base, (pages + 2) * PAGE);
+        }
+    }
+}
+
+#[cfg(not(lm_asan))]
+#[global_allocator]
+static GLOBAL: guard_alloc::GuardAlloc = guard_alloc::GuardAlloc;
+
+
+// ------------------------------------------------ canary in the spare capacity of destinations
+//
+// A destination matrix may be resized by the call, so its spare capacity cannot be poisoned; and the
+// kernels write it with non-temporal stores the sanitizer does not see.  Instead the harness fills the
+// spare rows with a pattern before the call and, when the buffer was not reallocated, checks afterwards
+// that every byte beyond max(rows before, rows after) still holds it (Vec::resize only initialises the
+// rows it adds).
+
+const CANARY: u8 = 0xC7;
+
+/// (address of row 0, capacity, bytes per row, rows) of a matrix whose spare rows now hold the pattern
+fn canary_set<T: MatrixElement, C: ArrayLength>(m: &DenseMatrix<T, C>) -> Option<(usize, usize, usize, usize)> {
+    let (rows, cap) = (m.rows(), m.capacity());
+    if rows == 0 || cap <= rows {
+        return None;
+    }
+    let rb = m.stride() * std::mem::size_of::<T>();
+    // (the spare rows are raw Vec capacity: no reference covers them)
+    let base = m[0].as_ptr() as usize;
+    unsafe { std::ptr::write_bytes((base + rows * rb) as *mut u8, CANARY, (cap - rows) * rb) };
+    Some((base, cap, rb, rows))
+}
+
+/// byte offset (from row 0) of the first damaged canary byte, -1 when intact / not checkable
+fn canary_check<T: MatrixElement, C: ArrayLength>(m: &DenseMatrix<T, C>, c: Option<(usize, usize, usize, usize)>) -> i64 {
+    if let Some((base, cap, rb, rows0)) = c {
+        if m.rows() > 0 && m.capacity() == cap && m[0].as_ptr() as usize == base {
+            let from = rows0.max(m.rows()) * rb;
+            for off in from..cap * rb {
+                if unsafe { std::ptr::read_volatile((base + off) as *const u8) } != CANARY {
+                    return off as i64;
+                }
+            }
+        }
+    }
+    -1
 }
 
 // ------------------------------------------------------------------ pipelines
@@ -416,6 +517,7 @@ fn run_ops<A: AbcX>(be: &str, seed: u64, ops: &[&str]) -> String {
                 let enc = &st.enc;
                 let striped = &mut st.striped;
                 let guard = poison(&[spare_of_vec(enc)]);
+                let can = if how == 1 { canary_set(striped.matrix()) } else { None };
                 let r = no_panic(|| match how {
                     0 => *striped = stripe_with(&pli, enc),
                     1 => stripe_into_with(&pli, enc, striped),
@@ -425,11 +527,12 @@ fn run_ops<A: AbcX>(be: &str, seed: u64, ops: &[&str]) -> String {
                 match r {
                     None => format!("stripe|{}|P", params),
                     Some(()) => format!(
-                        "stripe|{}|{},{},{}",
+                        "stripe|{}|{},{},{},{}",
                         params,
                         st.striped.matrix().rows(),
                         st.striped.matrix().capacity(),
-                        st.striped.wrap()
+                        st.striped.wrap(),
+                        canary_check(st.striped.matrix(), can)
                     ),
                 }
             }
@@ -513,6 +616,7 @@ fn run_ops<A: AbcX>(be: &str, seed: u64, ops: &[&str]) -> String {
                 let (striped, pssm, fs) = (&st.striped, &st.pssm, &mut st.fs);
                 let full = p[0] == "score";
                 let guard = poison(&[spare_of(striped.matrix()), spare_of(pssm.matrix())]);
+                let can = canary_set(fs.matrix());
                 let r = no_panic(|| {
                     if full {
                         each!(&pli, p => p.score_into(pssm, striped, fs))
@@ -523,7 +627,7 @@ fn run_ops<A: AbcX>(be: &str, seed: u64, ops: &[&str]) -> String {
                 drop(guard);
                 match r {
                     None => format!("score|{}|P", params),
-                    Some(()) => format!("score|{}|{},{}", params, st.fs.matrix().rows(), st.fs.matrix().capacity()),
+                    Some(()) => format!("score|{}|{},{},{}", params, st.fs.matrix().rows(), st.fs.matrix().capacity(), canary_check(st.fs.matrix(), can)),
                 }
             }
             "uscore" | "urows" => {
@@ -532,12 +636,13 @@ fn run_ops<A: AbcX>(be: &str, seed: u64, ops: &[&str]) -> String {
                 let params = format!("arm={},{}", arm, score_params(&st.striped, st.dm.matrix(), st.us.matrix(), &rows));
                 let (striped, dm, us) = (&st.striped, &st.dm, &mut st.us);
                 let guard = poison(&[spare_of(striped.matrix()), spare_of(dm.matrix())]);
+                let can = canary_set(us.matrix());
                 let r = no_panic(|| A::score_u8(&pli, dm, striped, rows.clone(), us));
                 drop(guard);
                 match r {
                     None => format!("uscore|{}|P", params),
                     Some(false) => format!("uscore|{}|U", params),
-                    Some(true) => format!("uscore|{}|{},{}", params, st.us.matrix().rows(), st.us.matrix().capacity()),
+                    Some(true) => format!("uscore|{}|{},{},{}", params, st.us.matrix().rows(), st.us.matrix().capacity(), canary_check(st.us.matrix(), can)),
                 }
             }
             "resz" => {
@@ -814,6 +919,8 @@ fn run_dense<T: Val, C: lightmotif::num::ArrayLength>(ops: &[&str]) -> String {
         let p: Vec<&str> = op.split(':').collect();
         let pre = format!("es={},C={},rows0={},cap0={},st={}", std::mem::size_of::<T>(), C::USIZE, m.rows(), m.capacity(), m.stride());
         let mm = &mut m;
+        // fill / set / sum never reallocate: rows beyond rows() are not theirs to touch
+        let guard = if matches!(p[0], "fill" | "set" | "sum") { poison(&[spare_of(mm)]) } else { poison(&[]) };
         let r = no_panic(|| -> i64 {
             match p[0] {
                 "new" => *mm = DenseMatrix::new(pu(p[1])),
@@ -858,8 +965,9 @@ fn run_dense<T: Val, C: lightmotif::num::ArrayLength>(ops: &[&str]) -> String {
             }
             0
         });
+        drop(guard);
         match r {
-            None => out.push(format!("d{}|{}|P", p[0], pre)),
+            None => out.push(format!("d{}|{},arg={},arg2={}|P", p[0], pre, p.get(1).unwrap_or(&"0"), p.get(2).unwrap_or(&"0"))),
             Some(_) => out.push(format!("d{}|{},arg={},arg2={}|{},{}", p[0], pre, p.get(1).unwrap_or(&"0"), p.get(2).unwrap_or(&"0"), m.rows(), m.capacity())),
         }
     }
@@ -870,6 +978,11 @@ fn run_dense<T: Val, C: lightmotif::num::ArrayLength>(ops: &[&str]) -> String {
 
 fn exec_case(line: &str) -> String {
     let (_id, f) = fields(line);
+    if f.contains_key("kernel") {
+        // a source-derived footprint line (translate/footprint_exec.py) replayed through the
+        // generic flow: nothing to execute, the driver re-compares it with the model
+        return "srcfp||ok".to_string();
+    }
     let seed: u64 = f.get("seed").map(|s| s.parse().unwrap()).unwrap_or(1);
     let ops_s = f.get("ops").cloned().unwrap_or_default();
     let ops: Vec<&str> = ops_s.split(';').filter(|s| !s.is_empty()).collect();
@@ -1237,6 +1350,23 @@ fn crashme(kind: &str) {
             let p = black_box(v.as_ptr());
             black_box(unsafe { std::ptr::read_volatile(p.add(37)) });
         }
+        "stream-oob" | "store-oob" => {
+            // one row past a 4-row matrix whose allocation is exact (clone): a non-temporal / plain store
+            #[cfg(target_arch = "x86_64")]
+            unsafe {
+                use std::arch::x86_64::*;
+                let mut m = DenseMatrix::<u8, U32>::new(4).clone();
+                let st = m.stride();
+                let p = black_box(m[0].as_mut_ptr().add(4 * st));
+                if kind == "stream-oob" {
+                    _mm256_stream_si256(p as *mut __m256i, _mm256_setzero_si256());
+                    _mm_sfence();
+                } else {
+                    _mm256_store_si256(p as *mut __m256i, _mm256_setzero_si256());
+                }
+                black_box(&m);
+            }
+        }
         "misaligned" => {
             #[cfg(target_arch = "x86_64")]
             unsafe {
@@ -1286,13 +1416,20 @@ fn main() {
             let me = std::env::current_exe().unwrap().to_string_lossy().to_string();
             let asan_bin = std::env::var("LM_FP_ASAN_BIN")
                 .unwrap_or_else(|_| "/verif/build/cargo-asan/x86_64-unknown-linux-gnu/debug/footprint".to_string());
+            // optional third child: the sanitizer build in release mode (opt-level 3, no overflow checks,
+            // no debug assertions)
+            let rel_bin = std::env::var("LM_FP_ASAN_REL_BIN").ok().filter(|s| !s.is_empty());
             let l2 = lines.clone();
             let t = std::thread::spawn(move || run_child(&asan_bin, true, &l2));
+            let l3 = lines.clone();
+            let t3 = rel_bin.map(|b| std::thread::spawn(move || run_child(&b, true, &l3)));
             let dbg = run_child(&me, false, &lines);
             let asan = t.join().unwrap();
+            let rel = t3.map(|t| t.join().unwrap());
             for (i, l) in lines.iter().enumerate() {
                 let recs = asan[i].records.clone().or_else(|| dbg[i].records.clone()).unwrap_or_else(|| "-".to_string());
-                println!("{} => asan={} dbg={} :: {}", l, asan[i].verdict, dbg[i].verdict, recs);
+                let relv = rel.as_ref().map(|r| format!(" rel={}", r[i].verdict)).unwrap_or_default();
+                println!("{} => asan={}{} dbg={} :: {}", l, asan[i].verdict, relv, dbg[i].verdict, recs);
             }
         }
         "crashme" => {
@@ -1307,7 +1444,12 @@ fn main() {
             let me = std::env::current_exe().unwrap().to_string_lossy().to_string();
             let mut ok = true;
             // (binary, kind, must die, stderr must mention the sanitizer)
-            let plan: [(&str, &str, bool, bool); 8] = [
+            let plan: [(&str, &str, bool, bool); 11] = [
+                (&asan_bin, "store-oob", true, true),
+                // non-temporal stores are inline asm (not instrumented): the guard-page allocator of the
+                // plain build is what sees them
+                (&me, "stream-oob", true, false),
+                (&me, "store-oob", true, false),
                 (&asan_bin, "clean", false, false),
                 (&asan_bin, "oob-read", true, true),
                 (&asan_bin, "oob-write", true, true),
